@@ -199,9 +199,49 @@ def reflect_tables(ctx, S):
             ctx.fail({"kind": "device-statement-not-flagged", "stmt": k}, {"stmt": DEV[k]}, f"a kernel whose only statement is {DEV[k]} is answered False")
 
 
+OPERANDS = {"zone": "z0", "slice-view": "z0[0:2, :]", "sub_grid": "grid.sub_grid(z0, [0], [0, 1])", "shift": "grid.shift(z0, 1.0, 0.0)",
+            "from_positions": "grid.from_positions([0.0, 1.0], [0.0])", "scale": "grid.scale(z0, 2.0, 1.0)", "run-time view": "z0[n:, :]"}
+ON_GRID = {"fill": "init.fill([{G}])", "cz": "gate.top_hat_cz({G})", "local_r": "gate.local_r(0.5, 1.0, {G})", "local_rz": "gate.local_rz(1.0, {G})",
+           "measure": "measure.measure(({G},))"}
+ANNOTATIONS = ["grid.Grid[Any, Any]", "grid.Grid[Literal[4], Any]", "grid.Grid[Literal[4], Literal[3]]", "grid.Grid[Any, Literal[3]]"]
+
+
+def operand_forms(ctx, S):
+    """the statements that act on a grid, with operands of every static type a kernel can give them: the zone itself, views,
+    shifted / scaled / freshly built grids, and subroutine parameters annotated with and without literal sizes"""
+    import typing
+    n = 0
+    cases = []
+    for on, o in OPERANDS.items():
+        for kn, k in ON_GRID.items():
+            cases.append((f"{kn} on {on}", TW + f"@move\ndef main(n: int, c: bool):\n{PRO}    {k.replace('{G}', o)}\n"))
+    for ann in ANNOTATIONS:
+        for kn, k in ON_GRID.items():
+            cases.append((f"{kn} on a parameter annotated {ann}",
+                          TW + f"@move\ndef sub(g: {ann}):\n    {k.replace('{G}', 'g')}\n\n@move\ndef main(n: int, c: bool):\n{PRO}    sub(z0)\n"))
+    for label, src in cases:
+        try:
+            m = kernels.define(src, Literal=typing.Literal)["main"]
+        except Exception as e:
+            ctx.hist("operand forms", f"definition error {type(e).__name__}")
+            continue
+        st, evs, _ = events.run_events(m, (1, True), S)
+        ans = query(m)
+        ctx.evaluations += 1
+        n += 1
+        ctx.hist("operand forms", f"{'acts' if evs else 'never acts'} -> {ans}")
+        if evs and ans == "False":
+            ctx.fail({"kind": "false-for-acting-kernel", "position": "operand-form", "form": label.split(" on ")[1][:40]}, {"operand_form": label, "src": src},
+                     f"has_quantum_runtime answers False although the kernel performs {label}")
+        if evs:
+            ctx.nt(("operand", label))
+    ctx.count("device statements x operand forms (views, shifted/scaled/built grids, annotated parameters)", n)
+
+
 def run(ctx):
     S = tweezer_prog.harness_spec()
     reflect_tables(ctx, S)
+    operand_forms(ctx, S)
     T = templates()
     ctx.rule = (f"each of the eight device-visible statements (and a quiet statement) at each of {len(T)} positions: top level, either branch, after a "
                 "returning if, loop bodies with and without loop-carried variables at nesting depth 1-3, loops inside branches inside loops, "
@@ -292,7 +332,8 @@ def replay(data):
     if inp.get("position") in templates() and inp.get("statement") in stmts:
         m, _ = define_template(templates()[inp["position"]], stmts[inp["statement"]])
     else:
-        m = kernels.define(inp["src"])["main"]
+        import typing
+        m = kernels.define(inp["src"], Literal=typing.Literal)["main"]
     acting = [a for a in ARGS if events.run_events(m, a, S)[1]]
     ans = query(m)
     table, seen = {}, {}
